@@ -1420,6 +1420,8 @@ def reweight(weight, obs, **kwargs):
         on the configurations in obs[i].idl. Default False.
     """
     result = []
+    if len(weight.cov_names):
+        raise ValueError('Error: Not possible to reweight with a weight that contains covobs!')
     for i in range(len(obs)):
         if len(obs[i].cov_names):
             raise ValueError('Error: Not possible to reweight an Obs that contains covobs!')
